@@ -5,6 +5,7 @@ package lib
 // Accessors for the verification harnesses (mounted by overlay only).
 
 import (
+	"context"
 	"fmt"
 	golog "log"
 	"io"
@@ -65,10 +66,14 @@ func (rm *RegistrationManager) VerifCaptureDetector(sink *[]VerifDetectorMsg) {
 
 // VerifSetRedis points the package's redis client at addr (a stand-in) and
 // prevents the default initialisation.
-func VerifSetRedis(addr string) {
+func VerifSetRedis(dial func() (net.Conn, error)) {
 	once.Do(func() {})
-	client = redis.NewClient(&redis.Options{Addr: addr, PoolSize: 4, MaxRetries: -1})
+	client = redis.NewClient(&redis.Options{Addr: "stand-in:6379", PoolSize: 2, MaxRetries: -1,
+		Dialer: func(ctx context.Context, network, addr string) (net.Conn, error) { return dial() }})
 }
+
+// VerifCleanup calls Cleanup (the shutdown clear request).
+func (rm *RegistrationManager) VerifCleanup() { rm.Cleanup() }
 
 // VerifTimeoutCount returns the number of timeout records.
 func (rm *RegistrationManager) VerifTimeoutCount() int { return len(rm.registeredDecoys.decoysTimeouts) }
